@@ -1069,11 +1069,14 @@ class CanBeVaries(Element):
         if self.__class__ == CanBeVaries:
             raise OperationNotAllowed("Cannot instantiate a CanBeVaries")
 
-        if datatype == 'varies' and reference is None:
-            reference = ('leaf', None, 'varies', None, None, -1)
-
         # a VARIES_n element has no datatype of its own that could be overridden: it takes the given one at both levels
         is_varies_name = name is not None and _valid_child_name(name, 'VARIES')
+
+        # (under STRICT a named element keeps the datatype of its structure: 'varies' is no way around it)
+        if datatype == 'varies' and reference is None and \
+                (name is None or is_varies_name or not Validator.is_strict(validation_level)):
+            reference = ('leaf', None, 'varies', None, None, -1)
+
         if (not Validator.is_strict(validation_level) or is_varies_name) and datatype not in (None, 'varies') \
                 and not is_base_datatype(datatype, version):
             version = version or get_default_version()
@@ -1392,7 +1395,9 @@ class Field(SupportComplexDataType):
         if name is None and Validator.is_strict(validation_level) and datatype != 'varies':
             raise OperationNotAllowed("Cannot instantiate an unknown Element with strict validation")
 
-        if datatype == 'varies' and reference is None:
+        # (under STRICT a field of the segment's structure keeps its datatype: 'varies' is no way around it)
+        if datatype == 'varies' and reference is None and \
+                (name is None or _valid_z_field_name(name) or not Validator.is_strict(validation_level)):
             reference = ('leaf', None, 'varies', None, None, -1)
 
         try:
@@ -1414,7 +1419,7 @@ class Field(SupportComplexDataType):
                 raise
 
         if datatype is not None and Validator.is_strict(validation_level) and \
-                datatype != 'varies' and datatype != self.datatype:
+                (datatype != 'varies' or self.datatype is not None) and datatype != self.datatype:
             raise OperationNotAllowed("Cannot assign a different datatype with strict validation")
 
         if datatype is not None:  # force the datatype to be the one chosen by the user
